@@ -474,6 +474,22 @@ class C12(SolverSuite):
             L1 = rng.randint(2, 30)
             G.share_problem(rng, actors, "S0", "S1", max_iters=L1)
             lists[1] = G.gen_single_ops(rng, "S1", rng.choice([0, rng.randint(0, L1)]), with_solve=rng.random() < 0.8, results_prob=0.3)
+            if rng.random() < 0.5 and actors["S0"].get("lower") is not None:
+                # ... and narrows the box of ITS solver's evolvent at some moment
+                lo, up = actors["S0"]["lower"], actors["S0"]["upper"]
+                nlo = [float("%.4g" % (l + rng.uniform(0.0, 0.3) * (u_ - l))) for l, u_ in zip(lo, up)]
+                nup = [float("%.4g" % (u_ - rng.uniform(0.0, 0.3) * (u_ - l))) for l, u_ in zip(lo, up)]
+                if all(l >= a_ and h <= b_ and l < h for l, h, a_, b_ in zip(nlo, nup, lo, up)):
+                    i = rng.randint(1, len(lists[0]))
+                    lists[0] = lists[0][:i] + [{"a": "S0", "op": "evq", "q": "setbounds_inner", "lower": nlo, "upper": nup}] + lists[0][i:]
+        for i in range(n_act):
+            aid = "S%d" % i
+            if rng.random() < 0.08 and not actors[aid].get("listeners"):
+                # a fork: the solver is deep-copied in mid-run, the caller goes on with the copy AND keeps stepping the original
+                idx = [j for j, o in enumerate(lists[i]) if o["op"] in ("iterate", "solve")]
+                if idx:
+                    j = rng.choice(idx)
+                    lists[i] = lists[i][:j + 1] + [{"a": aid, "op": "clone", "keep": rng.randint(1, 6)}] + lists[i][j + 1:]
         u = rng.random()
         if u < 0.2:
             # user code often builds ONE SolverParameters object and hands it to several solvers
@@ -582,6 +598,7 @@ class C12(SolverSuite):
                     o["n"] = s["k"]
                 if s["op"] in ("evq", "sdq", "setp", "clone"):
                     o = dict(s["evq"])
+                    o.pop("keep", None)      # alone, nobody keeps driving the original of a deep copy
                 ops.append(o)
             solo = srv.call(solo_run, plan["actors"][aid], ops, None, [f for f in plan.get("faults", []) if f["a"] == aid],
                             plan.get("continue_after_fault", False))
@@ -615,6 +632,8 @@ def _strip(s):
     for k in ("results", "returned"):
         if d.get(k) is not None:
             d[k] = tuple(d[k])
+    if isinstance(d.get("evq"), dict) and "keep" in d["evq"]:
+        d["evq"] = {k: v for k, v in d["evq"].items() if k != "keep"}
     return d
 
 
@@ -901,6 +920,12 @@ class C13(SolverSuite):
                         continue         # (an operation that ran before this listener was attached)
                     if kind == "addl":
                         continue
+                    if ls.get("child"):
+                        # the router attaches its child during ITS BeforeMethodStart: calls that were over before (zero-size
+                        # batches before the first trial) owe the child nothing
+                        at = [i for i, e in enumerate(a.cb_events) if e[1] == lid - 100 and e[2] == "BeforeMethodStart"]
+                        if not at or mk["ev_after"] <= at[0]:
+                            continue
                     if mk["raised"]:
                         # a call that raised (injected failure) promises no notification; if one is sent all the same, it
                         # may only speak of trials that were completed
